@@ -1,1 +1,22 @@
-From PM Require Import Model.Step.
+(* C18 — an edit inside a node never reaches outside it.
+   Theorem, for every schema, valid document, slice (open sides of the claimed depth) and every replace
+   step whose range lies inside the content of a node — the document's tokens are A ++ open :: B ++ close :: C
+   and the range is within B: the result's tokens are A ++ open :: B' ++ close :: C with the same A, the
+   same open token (type, attributes, marks), the same C; B' is B with the range spliced.  So a step whose
+   ends lie inside an isolating node can empty or rewrite the inside and never removes, splits or merges the
+   node.  That the planners (range expansion in covered_depths, the fitter, lift_target, can_split) only
+   emit steps whose range stays inside the isolating node is evaluated per case by Corr.C18. *)
+From Coq Require Import List Arith.
+From PM Require Import Model.Data Model.Mark Model.Tree Model.Step Spec.Tokens
+  Proofs.ReplaceValid Proofs.SliceSides Proofs.TokenBasics Proofs.ReplaceTokens Proofs.SliceShape Proofs.TokenLaws.
+Import ListNotations.
+
+Theorem C18_step_inside_node_stays_inside : forall s from to sl structure doc d' A o B C,
+  check s doc = true ->
+  Shape s (sl_content sl) (sl_open_start sl) (sl_open_end sl) -> from <= to ->
+  apply s (SReplace from to sl structure) doc = ROk d' ->
+  DT s doc = A ++ o :: B ++ TClose :: C ->
+  length A + 1 <= from -> to <= length A + 1 + length B ->
+  DT s d' = A ++ o :: (firstn (from - length A - 1) B ++ IT s sl ++ skipn (to - length A - 1) B) ++ TClose :: C.
+Proof. exact replace_step_inside_node. Qed.
+Print Assumptions C18_step_inside_node_stays_inside.
